@@ -41,4 +41,13 @@ def jobs(tier):
                      stubs=["DBusList append/pop_last/clear = array LIFO (R6)"],
                      bounds=f"all byte strings of length 0..{n} (full alphabet), offsets 0..{pre}; unwind {n+5}",
                      shape=f"signature, N={n}", cost=n * 4))
+    SREAL = ["dbus/dbus-list.c", "dbus/dbus-string.c", "dbus/dbus-marshal-validate.c"]
+    J.append(Job(name="e.request_name.short", group="C16.e", harness="harness/C16_acquire.c", defines={"MODE": 0}, real=SREAL, env=COMMON_ENV,
+                 checks="assert", unwind=9, unwindset=["vf_err_is.0:66"], timeout=600,
+                 encodes=["bus_registry_acquire_service", "bus_registry_release_service", "_dbus_validate_bus_name"],
+                 bounds="every name of 0..5 arbitrary bytes, RequestName and ReleaseName", shape="name-request route, short names"))
+    J.append(Job(name="e.request_name.limit255", group="C16.e", harness="harness/C16_acquire.c", defines={"MODE": 1}, real=SREAL, env=COMMON_ENV,
+                 checks="assert", unwind=262, timeout=3600, tiers=("thorough",),
+                 encodes=["bus_registry_acquire_service", "bus_registry_release_service", "_dbus_validate_bus_name"],
+                 bounds="well-formed names 'a.bbb...' of symbolic length 253..257 (maximum name length 255)", shape="name-request route, 255-byte limit"))
     return J
